@@ -27,8 +27,8 @@ LEVEL_NOTE = ("PARTIAL BY DESIGN: the theorems (props/C15.v) are about model/Rea
               "sample against the DBC sample of the same network); numeric attribute values are compared by value, not by their text.")
 
 RENDER = {f: importlib.import_module("fmt_render_" + f) for f in netdesc.FORMATS}
-N_QUICK = {"dbc": 1500, "dbf": 1000, "sym": 1000, "kcd": 1000, "json": 1000, "arxml": 450}      # descriptions; two renderings each
-N_THOROUGH = {"dbc": 26000, "dbf": 20000, "sym": 20000, "kcd": 20000, "json": 20000, "arxml": 9000}
+N_QUICK = {"dbc": 3000, "dbf": 2000, "sym": 2000, "kcd": 2000, "json": 2000, "arxml": 900}      # descriptions; two renderings each
+N_THOROUGH = {"dbc": 50000, "dbf": 25000, "sym": 40000, "kcd": 40000, "json": 25000, "arxml": 15000}
 
 
 # one root cause, one key: (format, lexical item that must be in the minimal set | field class) -> key
@@ -157,12 +157,34 @@ class Runner(object):
         return cur
 
 
+C15_COQ = ["model/Readers.v", "proofs/C15_numbers.v", "proofs/C15_misc.v", "model/Run_C15.v"]
+
+
+def ensure_vo():
+    """Until model/Readers.v and the C15 proof files are listed in _CoqProject, `make` does not know them: compile the chain
+    (in dependency order, under the build lock) when an object file is missing or older than its source or than lib/Prelude.vo."""
+    core.build()
+    with core.Lock():
+        ref = os.path.getmtime(os.path.join(core.COQ, "lib", "Prelude.vo")) if os.path.exists(os.path.join(core.COQ, "lib", "Prelude.vo")) else 0
+        stale = False
+        for rel in C15_COQ:
+            src = os.path.join(core.COQ, rel)
+            vo = src + "o"
+            if not os.path.exists(src):
+                continue
+            if stale or not os.path.exists(vo) or os.path.getmtime(vo) < os.path.getmtime(src) or os.path.getmtime(vo) < ref:
+                stale = True
+                core.sh("timeout 600 coqc -Q . CM %s" % rel, cwd=core.COQ, timeout=630)
+            ref = max(ref, os.path.getmtime(vo)) if os.path.exists(vo) else ref
+
+
 def run(chk):
     thorough = chk.tier == "thorough"
     chk.rule = ("per format: seeded abstract descriptions inside the format's envelope (1-3 frames, 1-6 signals each incl. Motorola, signed, float, "
                 "multiplexed, value tables, units incl. non-ASCII, comments, attributes with definitions where the format carries them), each rendered "
                 "twice by the independent writer with independently drawn lexical choices (every 5th first rendering is the plainest one) and a "
                 "drawn import encoding; every rendering is one case. non-trivial = at least one non-default lexical choice; distinct by file bytes")
+    ensure_vo()
     ok = chk.build_and_audit()
     cm = core.import_impl()
     import canmatrix.formats  # noqa
